@@ -68,7 +68,7 @@ def gen(seed, idx, tier):
   for j in range(int(r.integers(1, 6))):
     kind = str(r.choice(["nativeccd_off", "other_cone", "other_solver", "other_jacobian", "sleep", "broadphase", "same_model_other_nworld",
                          "batched_fields", "warn_overflow_off", "random", "multiccd_off", "tiny_caps", "same_model_flag_toggle",
-                         "same_model_flag_toggle", "same_model_other_batch", "same_model_other_option"]))
+                         "same_model_flag_toggle", "same_model_other_batch", "same_model_other_option", "same_shape_other_joints"]))
     dims.append(kind)
     t_opt = target["model"]["opt"]
     if kind == "nativeccd_off":
@@ -91,6 +91,24 @@ def gen(seed, idx, tier):
       o2[which] = {"integrator": str(r.choice(["euler", "implicitfast", "implicit", "rk4"])), "timestep": float(r.choice([0.001, 0.003, 0.008])), "impratio": float(r.choice([1.0, 3.0, 10.0])),
                    "iterations": int(r.choice([1, 3, 30])), "tolerance": float(r.choice([1e-3, 1e-6])), "ccd_iterations": int(r.choice([2, 12, 50]))}[which]
       p = dict(target, model=dict(target["model"], opt=o2))
+    elif kind == "same_shape_other_joints":
+      # same (nworld, nbody, nv, ngeom) but another joint structure: every free joint becomes three slides + three hinges (and the
+      # integrator is taken over from the target): scratch buffers cached by shape see the same shape with other rows written
+      xml = target["model"].get("xml")
+      if xml and "<freejoint" in xml:
+        import re
+
+        def six(mm):
+          n = mm.group(1)
+          return "".join(f'<joint name="{n}_s{a}" type="slide" axis="{ax}"/>' for a, ax in enumerate(["1 0 0", "0 1 0", "0 0 1"])) + \
+                 "".join(f'<joint name="{n}_h{a}" type="hinge" axis="{ax}"/>' for a, ax in enumerate(["1 0 0", "0 1 0", "0 0 1"]))
+
+        xml2 = re.sub(r'<freejoint name="([^"]+)"/>', six, xml)
+        xml2 = re.sub(r"\s*<keyframe>.*?</keyframe>", "", xml2, flags=re.S)  # keyframes are sized by nq, which changes
+        xml2 = re.sub(r'\s*<(jointpos|jointvel) joint="j\d+_0"[^>]*/>', "", xml2)
+        p = dict(target, model=dict(target["model"], xml=xml2))
+      else:
+        p = _prog(seed, f"P{idx}.{j}")
     elif kind == "same_model_other_batch":
       # same model and the same fields batched, but for another number of worlds (usually fewer), with its own per-world values
       nw = int(r.choice([1, 2, 2, 4]))
